@@ -118,6 +118,11 @@ pub fn unwind_point() -> !
 pub fn opaque_string() -> String
 { String::new() }
 
+// `String::push_str` on a message that is being assembled (R8: message text is not modelled)
+#[verifier::external_body]
+pub fn string_push_str(s: &mut String, t: &str)
+{ s.push_str(t) }
+
 // ------------------------------------------------------------------ Vec shims (R23)
 #[verifier::external_body]
 pub fn copy_within_vec(v: &mut Vec<u8>, lo: usize, hi: usize, dest: usize)
